@@ -94,6 +94,7 @@ type Exec struct {
 	depth      int
 	unwind     int
 	sliceBound int
+	timers     []*Obj
 	harness    string
 	funcs      map[string]int
 	finfo      map[*ssa.Function]*FuncInfo
@@ -408,6 +409,9 @@ func (x *Exec) callFunction(caller *Frame, fn *ssa.Function, args []Value, binds
 	if fn.Blocks == nil {
 		notEncodable("call to function without body: %s at %s", name, x.framePos(caller, p))
 	}
+	if refuseUnmodelledTime(name) {
+		notEncodable("time.Time method without a model: %s at %s", name, x.framePos(caller, p))
+	}
 	x.depth++
 	if x.depth > 80 {
 		notEncodable("call depth exceeded at %s", name)
@@ -520,11 +524,14 @@ func (x *Exec) execLoop(fr *Frame, l *Loop) {
 	exitVals := map[ssa.Value]Value{}
 	bound := x.unwind
 	outerSkip := fr.skip
+	entryG := hg
 	for iter := 0; ; iter++ {
 		if hg.isFalse() || x.alive(hg).isFalse() {
 			break
 		}
-		if iter >= bound {
+		// a loop whose continuation never depended on a symbolic condition (its guard is still the
+		// entry guard) is a concrete loop: it terminates on its own and is not subject to the bound
+		if iter >= bound && (hg != entryG || iter >= 20000) {
 			x.addObl("unwind", fmt.Sprintf("loop at %s needs more than %d iterations", x.framePos(fr, h.Instrs[0].Pos()), bound), x.framePos(fr, h.Instrs[0].Pos()), hg, ts.False)
 			// treat as dead beyond the bound so later obligations are not polluted
 			x.dead = mkOr(x.dead, hg)
